@@ -368,9 +368,50 @@ type runner struct {
 	open   []*txPlan
 	sent   map[string]uint64 // eth nonce per account = number of transactions submitted
 	last   map[string][]byte // last raw transaction per account
-	tagSeq int64
-	dir    string
+	base   int64 // height of the replicas when the behaviour starts (replicas are reused across behaviours)
+	pair   *pair
+	dirty  bool // the replicas must not be reused after this behaviour
+	suffix string
 }
+
+// pair is a set of live replicas shared by consecutive behaviours: setting up an EVM application with its LevelDB
+// stores costs far more than replaying a behaviour.  A behaviour starts by installing its initial validator set in
+// every replica's State (the heights simply continue) and uses fresh accounts; replicas are discarded after any
+// failure, failed block or incomplete behaviour.
+type pair struct {
+	reps     map[int]*replica
+	dir      string
+	lastSeen *gtypes.Commit
+	nodes    int
+	tagSeq   int64
+}
+
+func newPair(base string, seq int, nodes []*chainutil.Key, powers []int64, nrep int) (*pair, error) {
+	p := &pair{reps: map[int]*replica{}, dir: filepath.Join(base, fmt.Sprintf("p%d", seq)), nodes: len(nodes), tagSeq: 1000}
+	gen := chainutil.Genesis(nodes, powers, "adminOp")
+	observer := chainutil.NewKey("observer")
+	for id := 1; id <= nrep; id++ {
+		r, err := newReplica(id, filepath.Join(p.dir, fmt.Sprintf("r%d", id)), gen, observer)
+		if err != nil {
+			p.close()
+			return nil, err
+		}
+		p.reps[id] = r
+	}
+	return p, nil
+}
+
+func (p *pair) close() {
+	for _, r := range p.reps {
+		r.stop()
+	}
+	os.RemoveAll(p.dir)
+}
+
+var (
+	livePair *pair
+	pairSeq  int
+)
 
 func (rn *runner) fail(si int, st mbt.Step, kind string, prop bool, key, detail string, want, got interface{}) {
 	rn.rep.Fail(mbt.Failure{Trace: rn.ti, TraceID: rn.tr.ID, Step: si, Action: fmt.Sprintf("%s%v", st.A, st.Args),
@@ -436,14 +477,14 @@ func (rn *runner) oracleAuthorised(vs *gtypes.ValidatorSet, p *txPlan) bool {
 func (rn *runner) exec(si int, st mbt.Step, rid int, wantOut string) bool {
 	r := rn.reps[rid]
 	stt := r.kit.State()
-	k := int(stt.LastBlockHeight) // index of the block to execute
-	if k >= len(rn.blocks) {
+	k := int(stt.LastBlockHeight - rn.base) // index of the block to execute
+	if k < 0 || k >= len(rn.blocks) {
 		rn.fail(si, st, "error", false, "", fmt.Sprintf("replica %d has no block %d to execute", rid, k+1), nil, nil)
 		return false
 	}
 	bb := rn.blocks[k]
 	if bb.block == nil {
-		var lastCommit *gtypes.Commit
+		lastCommit := rn.pair.lastSeen
 		if k > 0 {
 			lastCommit = rn.blocks[k-1].seen
 		}
@@ -539,7 +580,8 @@ func (rn *runner) exec(si int, st mbt.Step, rid int, wantOut string) bool {
 	}
 	if aerr != nil {
 		// nothing may have changed
-		if stt.LastBlockHeight != int64(k) || !bytes.Equal(stt.Validators.Hash(), valsBefore.Hash()) {
+		rn.dirty = true
+		if stt.LastBlockHeight != rn.base+int64(k) || !bytes.Equal(stt.Validators.Hash(), valsBefore.Hash()) {
 			rn.fail(si, st, "mismatch", true, "failed-block-changed-state", "state changed although ExecBlock failed", nil, nil)
 		}
 		return true
@@ -590,7 +632,7 @@ func (rn *runner) compareRep(si int, st mbt.Step, rid int) {
 		mine = x[fmt.Sprint(rid)]
 	}
 	m := mine.(map[string]interface{})
-	wantH := int64(mbt.Int(m["h"]))
+	wantH := rn.base + int64(mbt.Int(m["h"]))
 	wa, wp := rn.wantView(m["vals"])
 	h, vs := r.kit.Ang.GetValidators()
 	v := chainutil.View(vs)
@@ -617,31 +659,69 @@ func runTrace(rep *mbt.Report, ti int, tr mbt.Trace, base string) {
 	}
 	w.ring = chainutil.Ring(w.nodes...)
 	for _, a := range tr.Cfg["Accounts"].([]interface{}) {
-		w.accounts[a.(string)] = newAccount(a.(string))
+		w.accounts[a.(string)] = newAccount(fmt.Sprintf("%s-%d-%s", a.(string), ti, tr.ID))
 	}
 	var err error
 	w.abi, err = abi.JSON(strings.NewReader(core.AdminABI))
 	if err != nil {
 		panic(err)
 	}
-	gen := chainutil.Genesis(w.nodes, powers, "adminOp")
-	rn := &runner{rep: rep, ti: ti, tr: tr, w: w, reps: map[int]*replica{}, sent: map[string]uint64{}, last: map[string][]byte{}, tagSeq: 1000}
-	rn.dir = filepath.Join(base, fmt.Sprintf("t%d", ti))
-	defer os.RemoveAll(rn.dir)
 	nrep := 2
 	if v, ok := tr.Cfg["Replicas"]; ok {
 		nrep = mbt.Int(v)
 	}
-	observer := chainutil.NewKey("observer")
-	for id := 1; id <= nrep; id++ {
-		r, err := newReplica(id, filepath.Join(rn.dir, fmt.Sprintf("r%d", id)), gen, observer)
+	if livePair != nil && (livePair.nodes != n || len(livePair.reps) != nrep) {
+		livePair.close()
+		livePair = nil
+	}
+	if livePair == nil {
+		pairSeq++
+		p, err := newPair(base, pairSeq, w.nodes, powers, nrep)
 		if err != nil {
 			rep.Fail(mbt.Failure{Trace: ti, TraceID: tr.ID, Kind: "error", Detail: "replica setup: " + err.Error()})
 			return
 		}
-		defer r.stop()
-		rn.reps[id] = r
+		livePair = p
+		rep.Count("replica_sets_created")
 	}
+	rn := &runner{rep: rep, ti: ti, tr: tr, w: w, reps: livePair.reps, pair: livePair, sent: map[string]uint64{}, last: map[string][]byte{}}
+	nfail := rep.Counters["failures"]
+	// the behaviour's initial validator set, identical on every replica; heights continue
+	var initVals []*gtypes.Validator
+	for i, k := range w.nodes {
+		if powers[i] >= 0 {
+			initVals = append(initVals, gtypes.NewValidator(k.Pub, powers[i], powers[i] > 0))
+		}
+	}
+	rn.base = rn.reps[1].kit.State().LastBlockHeight
+	for _, r := range rn.reps {
+		if r.kit.State().LastBlockHeight != rn.base {
+			panic("replicas of a reused set are at different heights")
+		}
+		r.kit.State().Validators = gtypes.NewValidatorSet(initVals)
+	}
+	defer func() {
+		// reuse the replicas only if the behaviour completed cleanly on all of them
+		clean := !rn.dirty && len(rn.open) == 0 && rep.Counters["failures"] == nfail
+		for _, r := range rn.reps {
+			if r.kit.State().LastBlockHeight != rn.base+int64(len(rn.blocks)) {
+				clean = false
+			}
+		}
+		if r := recover(); r != nil {
+			livePair.close()
+			livePair = nil
+			panic(r)
+		}
+		if !clean {
+			livePair.close()
+			livePair = nil
+			return
+		}
+		if len(rn.blocks) > 0 {
+			livePair.lastSeen = rn.blocks[len(rn.blocks)-1].seen
+		}
+	}()
 	for si, st := range tr.Steps {
 		rep.Steps++
 		switch st.A {
@@ -651,8 +731,8 @@ func runTrace(rep *mbt.Report, ti int, tr mbt.Trace, base string) {
 			decode(st.Args[0], &b)
 			decode(st.Args[1], &sigs)
 			route, snd, want := mbt.Str(st.Args[2]), mbt.Str(st.Args[3]), mbt.Str(st.Args[4])
-			rn.tagSeq++
-			pl := &txPlan{want: want, tag: rn.tagSeq, body: b, sigs: sigs, route: route, snd: snd, step: si,
+			rn.pair.tagSeq++
+			pl := &txPlan{want: want, tag: rn.pair.tagSeq, body: b, sigs: sigs, route: route, snd: snd, step: si,
 				label: fmt.Sprintf("Tx(%s n%d pw%d addr=%s n=%d sigs=%v route=%s sender=%s)", b.Cmd, b.Tgt, b.Pw, b.Addr, b.N, sigs, route, snd)}
 			adminJSON := w.adminCmd(b, sigs, pl.tag)
 			acct := w.accounts[snd]
@@ -662,7 +742,7 @@ func runTrace(rep *mbt.Report, ti int, tr mbt.Trace, base string) {
 			rn.open = append(rn.open, pl)
 		case "Resend":
 			snd := mbt.Str(st.Args[0])
-			rn.tagSeq++
+			rn.pair.tagSeq++
 			pl := &txPlan{want: "invalidTx", tag: -2, route: "resend", snd: snd, step: si, raw: rn.last[snd], label: "Resend(" + snd + ")"}
 			rn.open = append(rn.open, pl)
 		case "CloseBlock":
@@ -681,8 +761,8 @@ func runTrace(rep *mbt.Report, ti int, tr mbt.Trace, base string) {
 			decode(st.Args[1], &b)
 			decode(st.Args[2], &sigs)
 			snd, want := mbt.Str(st.Args[3]), mbt.Str(st.Args[4])
-			rn.tagSeq++
-			tag := rn.tagSeq
+			rn.pair.tagSeq++
+			tag := rn.pair.tagSeq
 			raw := w.ethTx(w.accounts[snd], rn.sent[snd], "contract", w.accounts[b.Addr].addr, w.adminCmd(b, sigs, tag))
 			r := rn.reps[rid]
 			r.calls = nil
@@ -754,7 +834,11 @@ func main() {
 		fmt.Fprintln(os.Stderr, "usage: adminop traces.json | adminop -probe name")
 		os.Exit(2)
 	}
-	base, err := os.MkdirTemp("", "vadminop-")
+	tmpRoot := ""
+	if fi, err := os.Stat("/dev/shm"); err == nil && fi.IsDir() {
+		tmpRoot = "/dev/shm" // LevelDB syncs on every commit; keep the replicas' stores in memory
+	}
+	base, err := os.MkdirTemp(tmpRoot, "vadminop-")
 	if err != nil {
 		fmt.Fprintln(os.Stderr, err)
 		os.Exit(2)
@@ -777,6 +861,9 @@ func main() {
 		if p != nil {
 			rep.Fail(mbt.Failure{Trace: ti, TraceID: tr.ID, Kind: "panic", Property: false, Key: "driver-panic", Detail: fmt.Sprintf("%v\n%s", p, stack)})
 		}
+	}
+	if livePair != nil {
+		livePair.close()
 	}
 	rep.Emit()
 }
